@@ -1,16 +1,78 @@
-"""C09 -- see DESIGN.md section 5.  Deductive targets are added below the bounded import."""
+"""C09 -- global switches act the same wherever they appear and whatever command runs."""
+from pyvc.contracts import REG as R
+from . import io_contracts as ioc
+from . import token_contracts as tc  # noqa: F401
+
 PROP = "C09"
 LEVEL = "other"
-EXPLANATION = "under construction: bounded run-time contract checks on the real code; deductive obligations are being added"
-UNDER_CONSTRUCTION = True
-NOT_APPLICABLE = "check under construction in this round (see DESIGN.md section 5 for the plan); not claimed yet"
-TARGETS = []
+EXPLANATION = "under construction"
+
+M_DCFG = "clikit.config.default_application_config"
+M_ACFG = "clikit.api.config.application_config"
+M_RAW = "clikit.api.args.raw_args"
+
+# the abstract raw arguments: option tokens = tokens before the first "--" (proved for both implementations in C08)
+R.shape("RawArgs", external=True, _option_tokens="list[str]", _tokens="list[str]")
+R.contract(M_RAW + ":RawArgs.has_option_token", params={"token": "str"}, returns="bool",
+           ensures=["result == (token in self._option_tokens)"], assumed=True,
+           note="proved for ArgvArgs and StringArgs under C08 (has_option_token.post, __init__.post before_dd)")
+R.shape("InputStream", external=True)
+R.shape("Input", _stream="ref InputStream", _interactive="bool")
+R.shape("StyleSet", external=True)
+R.shape("Application", external=True, g_style_set="ref StyleSet")
+R.shape("ApplicationConfig", _debug="bool")
+R.shape("DefaultApplicationConfig", base="ApplicationConfig")
+R.shape("ConsoleIO", base="IO")
+R.contract("clikit.api.application.application:Application.config", params={}, returns="ref ApplicationConfig",
+           assumed=True).is_property = True
+R.contract(M_ACFG + ":ApplicationConfig.style_set", params={}, returns="ref StyleSet", assumed=True).is_property = True
+R.contract("clikit.formatter.plain_formatter:PlainFormatter.__init__", params={"style_set": "ref StyleSet?"},
+           ensures=["self.g_disable", "not self.g_force"], modifies=["self.g_disable", "self.g_force"], assumed=True,
+           note="a plain formatter: disable_ansi() is True, force_ansi() is False").defaults = {"style_set": None}
+R.contract("clikit.formatter.ansi_formatter:AnsiFormatter.__init__", params={"style_set": "ref StyleSet?", "forced": "bool"},
+           ensures=["not self.g_disable", "self.g_force == forced"], modifies=["self.g_disable", "self.g_force"],
+           assumed=True, note="an ANSI formatter: disable_ansi() is False, force_ansi() is the `forced` argument"
+           ).defaults = {"style_set": None, "forced": False}
+R.shape("PlainFormatter", base="Formatter", external=True)
+R.shape("AnsiFormatter", base="Formatter", external=True)
+R.shape("NullFormatter", base="Formatter", external=True)
+
+OPT = "args._option_tokens"
+QUIET = "('--quiet' in %s or '-q' in %s)" % (OPT, OPT)
+VERB = "(4 if ('-vvv' in %s or self._debug) else (2 if '-vv' in %s else (1 if '-v' in %s else 0)))" % (OPT, OPT, OPT)
+NOINT = "('--no-interaction' in %s or '-n' in %s)" % (OPT, OPT)
+
+c = R.contract(
+    M_DCFG + ":DefaultApplicationConfig.create_io",
+    params={"application": "ref Application", "args": "ref RawArgs", "input_stream": "ref InputStream",
+            "output_stream": "ref OutputStream", "error_stream": "ref OutputStream"},
+    returns="ref IO",
+    ensures=[
+        "fresh(result)",
+        # quiet / verbosity / interaction depend on the command line only through the set of option tokens
+        "result._output._quiet == %s and result._error_output._quiet == %s" % (QUIET, QUIET),
+        "result._output._verbosity == %s and result._error_output._verbosity == %s" % (VERB, VERB),
+        "result._input._interactive == (not %s)" % NOINT,
+        # --no-ansi removes decoration from both outputs, --ansi (without --no-ansi) forces it on any stream
+        "implies('--no-ansi' in %s, (not result._output._format_output) and (not result._error_output._format_output))" % OPT,
+        "implies('--ansi' in %s and '--no-ansi' not in %s, result._output._format_output and result._error_output._format_output)" % (OPT, OPT),
+        "implies('--ansi' not in %s and '--no-ansi' not in %s, result._output._format_output == output_stream.g_ansi "
+        "and result._error_output._format_output == error_stream.g_ansi)" % (OPT, OPT),
+        "result._output._stream is output_stream and result._error_output._stream is error_stream",
+    ],
+    modifies=[],
+)
+TARGETS = [M_DCFG + ":DefaultApplicationConfig.create_io"]
 LEMMAS = []
+
 try:
-    from .C09_bounded import bounded, BOUNDED_RULE  # noqa: F401
+    from .C09_bounded import bounded, BOUNDED_RULE  # noqa
     try:
-        from .C09_bounded import replay_bounded  # noqa: F401
+        from .C09_bounded import replay_bounded  # noqa
     except ImportError:
         pass
 except ImportError:
     pass
+R.contract(M_RAW + ":RawArgs.has_token", params={"token": "str"}, returns="bool",
+           ensures=["result == (token in self._tokens)"], assumed=True,
+           note="proved for ArgvArgs and StringArgs under C08")
